@@ -431,6 +431,23 @@ static int convention_refusal(struct subj* s, int op, var e) {
   return s->t == T_TUPLE && op == OP_RESIZE_GROW && e == FormatError && s->cls != AllocStack && s->cls != AllocStatic;
 }
 
+/* The thread's exception record keeps the message of the last throw in a String of its own (struct Exception { var obj; var msg; ... }
+   in Exception.c, not public); a throw replaces that String's buffer, i.e. frees a block that existed before the call.  The block
+   belongs to the exception record, not to the object operated on, so exactly this address is exempt from "a refused call freed
+   nothing that existed before".  If the layout ever differs (second member not a String) nothing is exempt. */
+struct exc_head { var obj; var msg; };
+static void* exception_msg_buffer(void) {
+  volatile void* r = NULL;
+  var e = VF_CATCH({
+    struct exc_head* x = current(Exception);
+#if CELLO_MAGIC_CHECK == 1
+    if (x && x->msg && header(x->msg)->magic == (var)CELLO_MAGIC_NUM && type_of(x->msg) == String) r = ((struct String*)x->msg)->val;
+#endif
+  });
+  (void)e;
+  return (void*)r;
+}
+
 /* ---- the oracle ---------------------------------------------------------------------- */
 
 static void judge(struct subj* s, int op) {
@@ -559,6 +576,7 @@ static void judge(struct subj* s, int op) {
   }
 
   /* ===== stack, static or container-embedded object ===== */
+  void* excbuf = exception_msg_buffer();          /* read right before the call */
   al_begin();
   al_forbid(block, blockn, "the object itself");
   int buffer_is_heap = (s->cls == AllocData) || s->t == T_BOX;     /* embedded String/Tuple own a heap buffer; a Box owns a heap object */
@@ -587,12 +605,13 @@ static void judge(struct subj* s, int op) {
       vf_violation(LAB(s, sym), NULL, "%s %s (%s) but the destructor had already released what the object owns (free x%d)", opname[op],
         e ? "was refused" : "returned", vf_exc_name(e), own_freed);
       reconstruct(s); return; }
-    if (e && is_delete_op(op) && (s->t == T_ARRAY || s->t == T_LIST || is_map(s->t)) && al_nfree_preexisting() > 0) {
+    if (e && is_delete_op(op) && (s->t == T_ARRAY || s->t == T_LIST || is_map(s->t)) && al_nfree_preexisting(excbuf) > 0) {
       /* the buffers of a container are private: a refused delete of an embedded container must not free any block that existed
-         before the call (temporaries of the exception message are allocated and freed inside the window and do not count) */
+         before the call (temporaries of the exception message are allocated and freed inside the window and do not count, nor does
+         the old message buffer of the thread's exception record, which every throw replaces) */
       snprintf(sym, sizeof sym, "%s-but-owned-buffer-freed", how);
       vf_violation(LAB(s, sym), NULL, "%s %s (%s) but %d blocks that existed before the call were freed: the destructor had already released the container's storage", opname[op],
-        e ? "was refused" : "returned", vf_exc_name(e), al_nfree_preexisting());
+        e ? "was refused" : "returned", vf_exc_name(e), al_nfree_preexisting(excbuf));
       reconstruct(s); return; }
     if (rt_dtor != d0) {
       snprintf(sym, sizeof sym, "%s-but-destructor-ran", how);
